@@ -106,6 +106,18 @@ func init() {
 		Assumptions: []string{"the harness uses the API legally (Respond exactly once per asynchronous request, Preempt never blocks)", "the standard library is that of go1.26.8"},
 	})
 	register(&spec{
+		ID: "C38", Title: "JSON-RPC framing round-trips any message stream", Level: "exploration",
+		Harness: []harnessCopy{{"c38", "x/jsonrpc2"}},
+		TestPkg: "x/jsonrpc2", TestName: "TestZSimC38",
+		QuickRuns: 4000, ThoroughRuns: 400000, QuickBudget: 4 * time.Minute, ThoroughBudget: 40 * time.Minute,
+		Chunk: 250,
+		Rule: "each run draws 1-7 messages (calls, notifications, responses with result, error or both; integer ids up to +-2^53 and string ids; method names with quotes, unicode, control characters; parameter JSON from a pool including kilobyte-sized values that cross bufio's buffer) and one of four modes: (0) write with the real framer, read back under three seeded chunkings, under EVERY single split position and with the stream cut at EVERY byte offset (EOF or an I/O error, alone or together with the last bytes); (1) the writer's stream fails at a seeded byte offset, plus cancelled contexts for Read and Write; (2) sixteen kinds of definitely malformed frame from an independent reference framer placed at a seeded position between valid frames; (3) seeded byte flips. Non-trivial = at least 2 judged sub-cases; distinct = distinct (sub-case hash, workload hash) pairs",
+		Real: []string{"x/jsonrpc2/frame.go (HeaderFramer reader and writer), messages.go (EncodeMessage, DecodeMessage, NewCall, NewNotification, Response), wire.go compiled from the working tree (not instrumented: the code is sequential)", "bufio, encoding/json"},
+		Stubbed: []string{"the byte streams (simulated io.Reader / io.Writer: chunk sizes, (0,nil) reads, data delivered together with the final error, failure at a byte offset)"},
+		Assumptions: []string{"encoding/json (with UseNumber) decides JSON equality of params and results", "ids beyond +-2^53 are outside the default alphabet (decoding goes through float64)", "corrupted streams are only required to terminate without panic; absurd Content-Length values are capped at 64 KiB by the harness"},
+		NoDeterminism: false,
+	})
+	register(&spec{
 		ID: "C26", Title: "xgo fmt never loses a file at any crash point and keeps its mode", Level: "fault_enumeration",
 		Instrument: map[string]simgen.Options{xgo + "/cmd/internal/gopfmt": {Swap: map[string]string{"os": simgen.SimosPath}}},
 		Harness:    []harnessCopy{{"c26", "cmd/internal/gopfmt"}},
